@@ -32,6 +32,15 @@ def tr(start, end):
 FILTERS = {
     # the four filters of IndexMgrMC (spec -> code)
     "fA": flt('<C:comp-filter name="VEVENT"><C:prop-filter name="SUMMARY"/></C:comp-filter>'),
+    # a component type asked for at a level where the objects do not have it (they have it deeper)
+    "calAlarm": flt('<C:comp-filter name="VALARM"/>'),
+    "calNoAlarm": flt('<C:comp-filter name="VALARM"><C:is-not-defined/></C:comp-filter>'),
+    "calStandard": flt('<C:comp-filter name="STANDARD"/>'),
+    "evAlarm": flt('<C:comp-filter name="VEVENT"><C:comp-filter name="VALARM"/></C:comp-filter>'),
+    "evNoAlarm": flt('<C:comp-filter name="VEVENT"><C:comp-filter name="VALARM"><C:is-not-defined/>'
+                     '</C:comp-filter></C:comp-filter>'),
+    "evAlarmAction": flt('<C:comp-filter name="VEVENT"><C:comp-filter name="VALARM"><C:prop-filter name="ACTION">'
+                         '<C:text-match>AUDIO</C:text-match></C:prop-filter></C:comp-filter></C:comp-filter>'),
     "fB": flt('<C:comp-filter name="VEVENT"><C:prop-filter name="SUMMARY"/>'
               '<C:prop-filter name="LOCATION"><C:text-match>1</C:text-match></C:prop-filter></C:comp-filter>'),
     "fC": flt('<C:comp-filter name="VEVENT"><C:prop-filter name="DESCRIPTION"><C:is-not-defined/>'
@@ -144,6 +153,11 @@ BODIES = {
     "empty": (lambda U: cal(ev(U, "Alpha", "", "")), "plain"),                      # LOCATION: and DESCRIPTION: empty
     "zero": (lambda U: cal(ev(U, "", extra=("PRIORITY:0", "SEQUENCE:0", "PERCENT-COMPLETE:0"))), "plain"),
     "bad": (lambda U: b"BEGIN:VCALENDAR\r\nthis is not a calendar\r\n", "unparseable"),
+    # components nested two levels deep: an alarm inside the event, STANDARD inside VTIMEZONE
+    "alarm": (lambda U: cal(ev(U, "Alpha", extra=("BEGIN:VALARM", "ACTION:DISPLAY", "DESCRIPTION:ring",
+                                                   "TRIGGER:-PT15M", "END:VALARM"))), "plain"),
+    "alarmTz": (lambda U: cal(TZ_BERLIN, ev(U, "Beta", "Room", extra=("BEGIN:VALARM", "ACTION:AUDIO",
+                                                                      "TRIGGER:-PT5M", "END:VALARM"))), "plain"),
 }
 
 
@@ -333,7 +347,9 @@ def random_ops(seed, length=40):
                 (["tJan", "tFeb", "tJanSum", "ptr"], ["jan", "feb", "edge", "allday", "dur", "override", "tz"]),
                 (["hasLoc", "noLoc", "notLoc1", "fD"], ["m1", "m2", "m4", "empty", "janB", "jan"]),
                 (["hasPrio", "noSeq", "catTwo"], ["zero", "cat2", "jan", "empty"]),
-                (["noCompleted", "todoJan", "todo", "noTodo"], ["todo", "todoN", "todoDone", "jan"])]
+                (["noCompleted", "todoJan", "todo", "noTodo"], ["todo", "todoN", "todoDone", "jan"]),
+                (["calAlarm", "calNoAlarm", "evAlarm", "evNoAlarm", "calStandard", "evAlarmAction"],
+                 ["alarm", "alarmTz", "jan", "tz", "todo"])]
     bodies = list(BODIES)
     favoured = bodies
     if rng.random() < 0.6:
